@@ -81,6 +81,12 @@ type runner struct {
 func (rn *runner) one(e entry, css string, skipC, skipW bool, kind string, seed uint64) error {
 	var impl sx.X
 	o := render.Guard(5*time.Second, func() { impl = e.run(css, skipC, skipW) })
+	if o.Timeout {
+		// watchdog re-run rule: a timeout only counts if it repeats with a generous budget (a loaded
+		// machine can stall a goroutine for seconds)
+		rn.out.Hit("timeout-rerun")
+		o = render.Guard(90*time.Second, func() { impl = e.run(css, skipC, skipW) })
+	}
 	op := e.name
 	rn.out.Hit("entry:" + op)
 	rn.out.Hit("source:" + kind)
@@ -89,7 +95,7 @@ func (rn *runner) one(e entry, css string, skipC, skipW bool, kind string, seed 
 		rn.out.Count(key, true)
 		why := "panic: " + o.Panic
 		if o.Timeout {
-			why = "timeout (5 s)"
+			why = "timeout (5 s, then 90 s)"
 		}
 		rn.out.Hit("crash-at:" + op)
 		rn.out.Add(res.Finding{Kind: "crash", Op: "crash:css-syntax", Input: css, Reason: why + " (entry point " + op + ")", Key: o.Site, Seed: seed})
